@@ -151,7 +151,7 @@ def run(pid, tier, seed):
                         o = oc["outcome"]
                         pois = o["final"] == "poisoned"
                         fin = {"out": [[]] * n, "inn": [[]] * n} if pois else o["final"]
-                        f.write(json.dumps({"g0": sc["g0"], "prog": sc["prog"], "rets": o["rets"], "final": fin, "poisoned": pois,
+                        f.write(json.dumps({"ev": "exec", "g0": sc["g0"], "prog": sc["prog"], "rets": o["rets"], "final": fin, "poisoned": pois,
                                             "deadlock": o["deadlock"]}) + "\n")
                 cfg = vlib.cfg_text({"Nodes": set(range(1, n + 1)), "Vals": {1}, "Directed": directed}, spec="TSpec",
                                     invariants=["Consumed"], postcondition="AllConsumed")
@@ -170,6 +170,32 @@ def run(pid, tier, seed):
                                      json.dumps(o["final"])[:200], o["deadlock"], ", ".join(reasons)),
                                   {"source": "scheduler (outcome not in the model)", "flavour": fl, "g0": sc["g0"], "prog": sc["prog"], "outcome": o,
                                    "grant_sequence": oc["a_grant_sequence"], "tlc_reasons": reasons})
+    # free-running stress: 4 threads of random connect / scan / degree calls on 3 shared nodes (a mix whose pairwise
+    # combinations have no known finding): must return, not panic, and leave exactly the performed connects, mirrored
+    ST = dict(quick=(12, 300), thorough=(300, 1000))[tier]
+    stress_events = 0
+    for fl, directed in FLAVOURS.items():
+        tr = os.path.join(d, "stress_%s.ndjson" % fl)
+        vlib.harness("stress", {"flavour": fl, "rounds": ST[0], "threads": 4, "calls": ST[1], "nodes": 3, "seed": seed, "trace": tr}, timeout=3000)
+        lines = [x for x in open(tr).read().split("\n") if x.strip()]
+        stress_events += len(lines)
+        cfg = vlib.cfg_text({"Nodes": {1, 2, 3}, "Vals": {1}, "Directed": directed}, spec="TSpec", invariants=["Consumed"], postcondition="AllConsumed")
+        rr = vlib.run_tlc("TraceLocks", cfg, "%s/stress_%s" % (tag, fl), workers=1, timeout=3000, env={"TRACE": tr}, deque=True, heap="6g")
+        if not rr.ok or rr.depth != len(lines) + 1:
+            raise ToolError("TraceLocks did not consume %s: %s (%s)" % (tr, rr.violation, rr.out_file))
+        for ln, reasons in sorted(dict(vlib.parse_tla_tuple_prints(rr.prints, "REJECT")).items()):
+            ev = json.loads(lines[ln - 1])
+            rep.violation("%s:stress(connect+scan+degree):%s" % (fl, "+".join(sorted(reasons))),
+                          "%s: free-running round %d (4 threads x %d random connect/scan/degree calls): %s" % (fl, ln, ST[1], ", ".join(reasons)),
+                          {"source": "free-running stress", "flavour": fl, "event": {k: ev[k] for k in ev if k != "connects"}, "tlc_reasons": reasons})
+    rep.cov["free_running_stress_rounds_validated_by_tlc"] = stress_events
+    # liveness of the design (weak fairness, small constants, no state constraint): every run ends
+    lr = vlib.run_tlc("MC_Locks", vlib.cfg_text({"Nodes": {1, 2}, "Vals": {1}, "Directed": False, "Threads": {1, 2}, "MaxCalls": 1, "MaxInitEdges": 1,
+                                                 "Rotational": False}, spec="LSpecFair", properties=["EveryRunEnds"]), "%s/live" % tag,
+                      workers=4, timeout=3000, collect_prints=False)
+    if lr.violation or not lr.ok:
+        raise ToolError("liveness EveryRunEnds of MC_Locks fails: %s (%s)" % (lr.violation, lr.out_file))
+    rep.cov["liveness"] = {"property": "EveryRunEnds == (phase = run) ~> (phase = end) under WF", "states": lr.distinct, "result": "holds"}
     cov = vlib.action_coverage("MC_Locks", vlib.cfg_text({"Nodes": {1, 2}, "Vals": {1}, "Directed": True, "Threads": {1, 2}, "MaxCalls": 1,
                                                           "MaxInitEdges": 1, "Rotational": False}, spec="LSpec", invariants=["Progress"]), "%s/cov" % tag)
     rep.cov["action_coverage_small_model"] = cov
